@@ -34,6 +34,7 @@ OF THIS SOFTWARE, EVEN IF ADVISED OF THE POSSIBILITY OF SUCH DAMAGE.
 #include "vm_compiled_light.hpp"
 #include "blake2/blake2.h"
 #include "cpu.hpp"
+#include "verif_hooks.h"
 #include <cassert>
 #include <limits>
 
@@ -205,6 +206,7 @@ extern "C" {
 		}
 		else {
 			cache->datasetInit(cache, dataset->memory + startItem * randomx::CacheLineSize, startItem, startItem + itemCount - (itemCount % 4));
+			RANDOMX_VERIF_YIELD(RANDOMX_VERIF_SITE_DATASET_SPLIT);
 
 			startItem += itemCount - 4;
 			cache->datasetInit(cache, dataset->memory + startItem * randomx::CacheLineSize, startItem, startItem + 4);
@@ -396,6 +398,7 @@ extern "C" {
 		machine->resetRoundingMode();
 		for (int chain = 0; chain < RANDOMX_PROGRAM_COUNT - 1; ++chain) {
 			machine->run(&tempHash);
+			RANDOMX_VERIF_YIELD(RANDOMX_VERIF_SITE_HASH_CHAIN);
 			blakeResult = blake2b(tempHash, sizeof(tempHash), machine->getRegisterFile(), sizeof(randomx::RegisterFile), nullptr, 0);
 			assert(blakeResult == 0);
 		}
@@ -418,6 +421,7 @@ extern "C" {
 		machine->resetRoundingMode();
 		for (uint32_t chain = 0; chain < RANDOMX_PROGRAM_COUNT - 1; ++chain) {
 			machine->run(machine->tempHash);
+			RANDOMX_VERIF_YIELD(RANDOMX_VERIF_SITE_HASH_CHAIN);
 			blake2b(machine->tempHash, sizeof(machine->tempHash), machine->getRegisterFile(), sizeof(randomx::RegisterFile), nullptr, 0);
 		}
 		machine->run(machine->tempHash);
@@ -431,6 +435,7 @@ extern "C" {
 		machine->resetRoundingMode();
 		for (int chain = 0; chain < RANDOMX_PROGRAM_COUNT - 1; ++chain) {
 			machine->run(machine->tempHash);
+			RANDOMX_VERIF_YIELD(RANDOMX_VERIF_SITE_HASH_CHAIN);
 			blake2b(machine->tempHash, sizeof(machine->tempHash), machine->getRegisterFile(), sizeof(randomx::RegisterFile), nullptr, 0);
 		}
 		machine->run(machine->tempHash);
